@@ -170,7 +170,10 @@ class _PartialEvalInstance(DefaultVisitor):
 
     def _try_eval(self, e_eval: Expr, ctx: Context):
         """Evaluate via the interpreter; return ``None`` on any
-        exception (PE is best-effort)."""
+        exception (PE is best-effort).  Under a stochastic context one
+        evaluation is one draw, not the value of the expression."""
+        if ctx.is_stochastic():
+            return None
         try:
             return to_value(self.rt.eval_expr(e_eval, self._base_env(), ctx))
         except Exception:  # noqa: BLE001 -- partial eval is best-effort
